@@ -57,6 +57,7 @@ type Ctx struct {
 	typeTags     map[string]int
 	knownWitness map[string][]*Term
 	curTop       *ssa.Function
+	recoverNil   int
 }
 
 func NewCtx(P *Program, S *Specs) *Ctx {
@@ -89,6 +90,9 @@ type deferRec struct {
 	cond *Term
 	call *ssa.CallCommon
 	pos  token.Pos
+	fn   *Val
+	args []*Val
+	ok   bool
 }
 
 type retPoint struct {
@@ -253,8 +257,8 @@ func (c *Ctx) globalPtr(g *ssa.Global) *Val {
 	name := g.Pkg.Pkg.Path() + "." + g.Name()
 	name = strings.TrimPrefix(name, modPath+"/")
 	root := "G:" + name
-	if _, ok := under(elem).(*types.Array); ok {
-		root = "S:" + tstr(under(elem).(*types.Array).Elem()) // arrays live in S heaps
+	if _, ok := under(elem).(*types.Array); ok && c.P.MutGlobals[g] {
+		root = "S:" + tstr(under(elem).(*types.Array).Elem()) // mutable array globals live in S heaps
 		return &Val{K: KPtr, T: g.Type(), X: App("gref!"+name, SInt), Root: root}
 	}
 	return &Val{K: KPtr, T: g.Type(), X: Num(1), Root: root}
@@ -286,6 +290,20 @@ func (fr *Frame) load(st *State, p *Val, t types.Type) *Val {
 		return cv
 	}
 	if strings.HasPrefix(p.Root, "G:") {
+		if p.Idx != nil && p.Path == "" {
+			// element of a constant array global
+			g := fr.C.findGlobal(p.Root)
+			if g != nil {
+				q := *p
+				q.Idx = nil
+				av := fr.C.loadGlobal(st, &q, g.Type().(*types.Pointer).Elem())
+				if av.K == KArr {
+					el := Select(av.X, p.Idx)
+					elemRangeFact(el, t)
+					return &Val{K: kindOf(t), T: t, X: el}
+				}
+			}
+		}
 		return fr.C.loadGlobal(st, p, t)
 	}
 	if strings.HasPrefix(p.Root, "S:") {
@@ -612,7 +630,7 @@ func (fr *Frame) enterLoop(li *loopInfo, pre *State) *State {
 		}
 	}()
 	if w.all {
-		c.note("%s: loop %d contains a call or operation with unknown effects: whole heap havoced", fr.Fn, li.ordinal)
+		c.note("%s: loop %d contains a call or operation with unknown effects (%s): whole heap havoced", fr.Fn, li.ordinal, w.why)
 		st.havocAll()
 	} else {
 		// Keys whose only writes in the body go to objects allocated inside the body are NOT havoced: at an arbitrary
@@ -912,12 +930,26 @@ func (fr *Frame) step(st *State, ins ssa.Instruction, b *ssa.BasicBlock, edgeSt 
 		fr.Regs[x] = r
 		return ns
 	case *ssa.Defer:
-		fr.deferred = append(fr.deferred, deferRec{st.R, &x.Call, x.Pos()})
-		// arguments are evaluated now; we only support calls whose effect is irrelevant or modelled at rundefers
+		// arguments (and the function value) are evaluated now, the call runs at rundefers
+		d := deferRec{cond: st.R, call: &x.Call, pos: x.Pos()}
+		if !harmlessDefer(callName(&x.Call)) {
+			func() {
+				defer func() { recover() }()
+				if x.Call.IsInvoke() {
+					d.args = append(d.args, fr.val(st, x.Call.Value))
+				} else if _, isB := x.Call.Value.(*ssa.Builtin); !isB {
+					d.fn = fr.val(st, x.Call.Value)
+				}
+				for _, a := range x.Call.Args {
+					d.args = append(d.args, fr.val(st, a))
+				}
+				d.ok = true
+			}()
+		}
+		fr.deferred = append(fr.deferred, d)
 		return st
 	case *ssa.RunDefers:
-		fr.runDefers(st)
-		return st
+		return fr.runDefers(st)
 	case *ssa.Go:
 		c.note("%s: go statement abstracted (heap havoc)", fr.Fn)
 		st.havocAll()
@@ -1292,7 +1324,27 @@ func (c *Ctx) bitop(name string, x, y *Term, rt types.Type) *Term {
 	return r
 }
 
+// orderAxioms states, once per verification unit, that string < and the lexicographic byte order are transitive
+// (assumed library facts; antisymmetry and totality are added per compared pair).
+func (c *Ctx) orderAxioms() {
+	for _, f := range globalFacts {
+		if f == orderAxiomMarker {
+			return
+		}
+	}
+	c.addFact(orderAxiomMarker)
+	x, y, z := BoundVar("x", SStr), BoundVar("y", SStr), BoundVar("z", SStr)
+	c.addFact(Forall([]*Term{x, y, z}, Implies(And(App("str.lt", SBool, x, y), App("str.lt", SBool, y, z)), App("str.lt", SBool, x, z))))
+	u, v, w := BoundVar("u", SInt), BoundVar("v", SInt), BoundVar("w", SInt)
+	cmp := func(a, b *Term) *Term { return App("bytes.cmp", SInt, a, b) }
+	c.addFact(Forall([]*Term{u, v, w}, Implies(And(Le(cmp(u, v), Num(0)), Le(cmp(v, w), Num(0))), Le(cmp(u, w), Num(0)))))
+	c.addFact(Forall([]*Term{u, v, w}, Implies(And(Le(cmp(u, v), Num(0)), Le(cmp(v, w), Num(0)), Eq(cmp(u, w), Num(0))), And(Eq(cmp(u, v), Num(0)), Eq(cmp(v, w), Num(0))))))
+}
+
+var orderAxiomMarker = Eq(App("order!axioms", SBool), TTrue)
+
 func (c *Ctx) strLt(a, b *Term) *Term {
+	c.orderAxioms()
 	r := App("str.lt", SBool, a, b)
 	// strict total order instances: irreflexive + asymmetric + total for this pair
 	c.addFact(Not(And(r, App("str.lt", SBool, b, a))))
@@ -1694,7 +1746,7 @@ func (fr *Frame) next(st *State, x *ssa.Next) *Val {
 
 // ---------------------------------------------------------------------------------------------
 
-func (fr *Frame) runDefers(st *State) {
+func (fr *Frame) runDefers(st *State) *State {
 	c := fr.C
 	for i := len(fr.deferred) - 1; i >= 0; i-- {
 		d := fr.deferred[i]
@@ -1702,16 +1754,45 @@ func (fr *Frame) runDefers(st *State) {
 		if harmlessDefer(name) {
 			continue
 		}
-		if fn, ok := d.call.Value.(*ssa.MakeClosure); ok {
-			if f := fn.Fn.(*ssa.Function); isRecoverClosure(f) {
-				c.note("%s: deferred recover closure (panics are contained)", fr.Fn)
+		// a deferred function or closure of the module runs on the normal (non-panicking) path with recover() == nil
+		var callee *ssa.Function
+		var closure *Val
+		if d.ok && !d.call.IsInvoke() {
+			callee = d.call.StaticCallee()
+			if d.fn != nil && d.fn.Fn != nil {
+				callee = d.fn.Fn
+				if len(d.fn.Binds) > 0 {
+					closure = d.fn
+				}
+			}
+		}
+		if callee != nil && c.inlinable(callee) && fr.Depth < maxInlineDepth && !fr.onStack(callee) && !d.cond.IsFalse() {
+			// executed only if the defer statement was reached: run on a copy and merge
+			run := st.clone()
+			run.R = And(st.R, d.cond)
+			skip := st.clone()
+			skip.R = And(st.R, Not(d.cond))
+			c.recoverNil++
+			_, after := fr.inline(run, callee, d.args, closure, d.pos)
+			c.recoverNil--
+			if after == nil {
+				// the deferred function does not return on this path (re-panics): only the skip path continues
+				*st = *skip
 				continue
 			}
+			if skip.R.IsFalse() {
+				after.R = st.R
+				*st = *after
+			} else {
+				m := mergeStates([]*Term{after.R, skip.R}, []*State{after, skip})
+				*st = *m
+			}
+			continue
 		}
 		c.note("%s: deferred call %s abstracted (heap havoc at function exit)", fr.Fn, name)
 		st.havocAll()
-		c.reassertConstGlobals(st)
 	}
+	return st
 }
 
 func harmlessDefer(name string) bool {
